@@ -9,7 +9,7 @@ hooks = [l.split()[0] for l in HOOK_COMMITS if 'verif hooks' in l]
 CLAIMED = {
  "C01": dict(
    text="Deductive proof (all inputs, all alias partitions) that the Go bodies of add/sub/neg/double/halve/select/reduce/Montgomery mul/square/fromMont/butterfly and the predicates of all 23 field packages meet integer-mod-q contracts with canonical results; VCs generated from go/ssa of the current tree, discharged by z3/cvc5.",
-   note="Trusted: go/ssa front end, gcv VC generator, SMT solvers, math/bits axioms, pinned moduli. Assembly bodies under default tags are assumed contracts (listed in evidence). Div is proved equal to x*inv(y) with Inverse interpreted; Inverse/Exp/Sqrt/Legendre/BatchInvert/vector ops not yet under contract (listed under not_covered).",
+   note="Trusted: go/ssa front end, gcv VC generator, SMT solvers, math/bits axioms, pinned moduli. Assembly bodies under default tags are assumed contracts (listed in evidence). Div is proved equal to x*inv(y) with Inverse interpreted; Exp is proved to be x^k / inv(x)^(-k) for every integer k (square-and-multiply invariant, lemma x^(2h) = (x^h)^2 proved by induction, math/big BitLen/Bit by their documented meaning); the portable vector loops are under contract; Inverse/Sqrt/Legendre/BatchInvert are not (listed under not_covered).",
    technique="contract-based deductive verification: weakest-precondition style symbolic execution over go/ssa with //@ contracts, cut points with ghost quotients, SMT (z3 5.1, z3 4.8.12, cvc5 1.0)",
    design="§5 C01"),
  "C02": dict(
